@@ -139,6 +139,14 @@ static void one_case(char* line) {
     if (fam == 6) {
       struct sockaddr_in6 a6; uv_ip6_addr("::1", 80, &a6);
       rc = uv_getnameinfo(&h_loop, r, cb_gni, (const struct sockaddr*) &a6, flags);
+    } else if (fam != 4) {
+      /* an address family uv_getnameinfo rejects: the call must leave no request registered */
+      struct sockaddr_storage ss; unsigned before_reqs = h_loop.active_reqs.count;
+      memset(&ss, 0, sizeof ss); ss.ss_family = (sa_family_t) fam;
+      rc = uv_getnameinfo(&h_loop, r, cb_gni, (const struct sockaddr*) &ss, flags);
+      printf("rejected%d reqs%+d\n", rc, (int) (h_loop.active_reqs.count - before_reqs));
+      if (rc != 0) h_loop.active_reqs.count = before_reqs;   /* keep the harness loop usable */
+      return;
     } else {
       struct sockaddr_in a4; uv_ip4_addr("127.0.0.1", 80, &a4);
       rc = uv_getnameinfo(&h_loop, r, cb_gni, (const struct sockaddr*) &a4, flags);
